@@ -349,6 +349,81 @@ func runLoad(c *core.Ctx, n int) {
 
 // runRetained (C08): a Resource value obtained once is used to send events in several lives of the service;
 // in every life the event is applied, published on that life's connection and handed to the listeners.
+// runNestedListenerEvents: a listener reacts to an event by sending another event through ev.Resource (keeping
+// a derived value in sync, say). Every listener is handed every event as it was sent: name and payload.
+func runNestedListenerEvents(c *core.Ctx) {
+	var recs []interface{}
+	for variant := 0; variant < 2; variant++ {
+		s := res.NewService("test")
+		s.SetLogger(nil)
+		var mu sync.Mutex
+		var seq []string
+		note := func(x string) { mu.Lock(); seq = append(seq, x); mu.Unlock() }
+		s.Handle("nl.$id", res.GetModel(func(r res.ModelRequest) { r.Model(map[string]int{"a": 1}) }),
+			res.Call("go", func(r res.CallRequest) { r.Event("custom", map[string]int{"n": 1}); r.OK(nil) }))
+		payload := func(ev *res.Event) string {
+			b, _ := json.Marshal(ev.Payload)
+			return ev.Name + string(b)
+		}
+		s.AddListener("nl.$id", func(ev *res.Event) {
+			note("A:" + payload(ev))
+			if ev.Name == "custom" {
+				ev.Resource.Event("followup", map[string]int{"n": 2})
+			}
+		})
+		s.AddListener("nl.$id", func(ev *res.Event) { note("B:" + payload(ev)) })
+		conn := rconn.New(nil)
+		conn.OnPub = func(m rconn.Msg) {
+			if strings.HasPrefix(m.Subject, "event.test.nl.1.") {
+				note("pub:" + strings.TrimPrefix(m.Subject, "event.test.nl.1."))
+			}
+		}
+		served := make(chan struct{})
+		s.SetOnServe(func(*res.Service) { close(served) })
+		done := make(chan error, 1)
+		go func() { done <- s.Serve(conn) }()
+		select {
+		case <-served:
+		case <-time.After(3 * time.Second):
+			c.Inconclusive("nested-listener scenario: service did not start")
+			return
+		}
+		ran := make(chan struct{})
+		if variant == 0 {
+			s.With("test.nl.1", func(r res.Resource) { r.Event("custom", map[string]int{"n": 1}); close(ran) })
+		} else {
+			conn.Deliver("call.test.nl.1.go", "inbox.nl", nil)
+			go func() {
+				for t := 0; t < 2000 && len(conn.PubsOn("inbox.nl")) == 0; t++ {
+					time.Sleep(time.Millisecond)
+				}
+				close(ran)
+			}()
+		}
+		select {
+		case <-ran:
+		case <-time.After(3 * time.Second):
+		}
+		time.Sleep(2 * time.Millisecond)
+		mu.Lock()
+		got := append([]string{}, seq...)
+		mu.Unlock()
+		recs = append(recs, map[string]interface{}{"kind": "nested", "life": 1, "seq": got, "n": 0, "done": true,
+			"subj": []string{"With callback", "call handler"}[variant] + ": custom event, the first of two listeners answers it with a follow-up event", "seed": 0})
+		s.Shutdown()
+		select {
+		case <-done:
+		case <-time.After(3 * time.Second):
+		}
+	}
+	core.CheckRecords(c, "TraceLoad", "TraceLoad.cfg", recs, nil, func(i int, r interface{}, inv string) {
+		m := r.(map[string]interface{})
+		c.Violate(core.Violation{Signature: map[string]string{"engine": "reqsim", "kind": "C08:nested-listener-event"},
+			Text: fmt.Sprintf("%v: effects %v", m["subj"], m["seq"]), Replay: m})
+	})
+	c.Cover("nested_listener_events", len(recs))
+}
+
 // runQueryCallbackEvents: events sent on the QueryRequest a query callback is given (it is a Resource like
 // any other): applied, published, handed to the listeners - in that order.
 func runQueryCallbackEvents(c *core.Ctx) {
